@@ -403,7 +403,7 @@ func (e *Engine) backEdge(f *frame, from, h *ssa.BasicBlock) {
 		return
 	}
 	saved := e.pc
-	e.pc = c
+	e.pc = e.X.And(f.base, c)
 	defer func() { e.pc = saved }()
 	idx := predIndex(h, from)
 	next := map[*ssa.Phi]Val{}
@@ -420,8 +420,19 @@ func (e *Engine) backEdge(f *frame, from, h *ssa.BasicBlock) {
 	if st == nil {
 		st = f.st
 	}
+	var split *CaseSplit
+	for _, sp := range lc.spec.Splits {
+		v, ok := e.resolveLocal(f, h, sp.Name, nil)
+		if !ok || len(v.C) != 1 || v.C[0].Op != "var" {
+			bail("loop %d of %s: split variable %q is not a loop-carried integer", lc.ordinal, f.fn.Name(), sp.Name)
+		}
+		split = &CaseSplit{Var: v.C[0], Lo: sp.Lo, Hi: sp.Hi}
+	}
 	for i, t := range e.evalInv(f, lc, next, st) {
 		e.oblige("inv-step", fmt.Sprintf("L%d.%d:%s", lc.ordinal, i, trunc(lc.spec.Invs[i].Text, 50)), t, h.Instrs[0].Pos())
+		if split != nil && e.specDepth == 0 {
+			e.Obls[len(e.Obls)-1].Split = split
+		}
 	}
 	if lc.spec.Dec != nil {
 		saveSt := f.st
